@@ -12,7 +12,7 @@ CONSTANT Focus      \* "C04", "C05", "C08", "C10" or "all"
 Traces == ndJsonDeserialize(IOEnv.TRACES)
 VARIABLES tid, l
 tvars == <<vrows, vtail, vdescr, vreadme, irows, itail, idescr, ireadme, tdescr, treadme,
-           mode, vlen, ilen, mmI, pc, ref, out, tid, l>>
+           mode, vlen, ilen, mmI, uctx, pc, ref, out, tid, l>>
 Ev == Traces[tid].events
 
 D(d) == IF d.k = "ok" THEN DOk(d.len) ELSE [k |-> d.k]
@@ -27,8 +27,8 @@ TraceInit ==
        /\ vdescr = DOk(Len(Flat(r))) /\ idescr = DOk(Len(r))
        /\ vreadme = DOk(Len(Flat(r))) /\ ireadme = DOk(Len(r))
        /\ tdescr = TOk(Len(r), Len(Flat(r)))
-       /\ treadme = [k |-> "ok", n |-> Len(r), listed |-> Listed(IndexRows(r, 0), Len(r))]
-  /\ vtail = 0 /\ itail = 0 /\ mode = Traces[tid].init.mode /\ mmI = NoMap
+       /\ treadme = [k |-> "ok", n |-> Len(r), listed |-> Listed(IndexRows(r, 0), Len(r)), inctx |-> FALSE]
+  /\ vtail = 0 /\ itail = 0 /\ mode = Traces[tid].init.mode /\ mmI = NoMap /\ uctx = "no"
   /\ pc = Idle /\ out = "ok"
 
 CallOf(e) ==
@@ -37,6 +37,8 @@ CallOf(e) ==
     [] e.op = "RT_Call" -> RT_Call(e.i)
     [] e.op = "SetMode" -> SetMode(e.m)
     [] e.op = "Reopen" -> Reopen(e.m)
+    [] e.op = "EnterCtx" -> EnterCtx
+    [] e.op = "ExitCtx" -> ExitCtx
 
 Internal == \/ RA_Checks \/ RA_Next \/ RA_VWrite \/ RA_IWrite \/ RA_RollbackV \/ RA_RollbackI
             \/ RA_Close \/ RA_ULenI \/ RA_Done
@@ -60,7 +62,7 @@ Match ==
      /\ ((F("C05") \/ F("C10")) => /\ vrows = p.vrows /\ vtail = p.vtail /\ vdescr = D(p.vdescr)
                                    /\ irows = p.irows /\ itail = p.itail /\ idescr = D(p.idescr)
                                    /\ tdescr = TD(p.tdescr))
-     /\ (F("C08") => /\ treadme = TR(p.treadme) /\ vreadme = D(p.vreadme) /\ ireadme = D(p.ireadme))
+     /\ (F("C08") => /\ NoGhost(treadme) = TR(p.treadme) /\ vreadme = D(p.vreadme) /\ ireadme = D(p.ireadme))
 Progress == (pc = Idle /\ Match) => TLCSet(tid, IF TLCGet(tid) < l THEN l ELSE TLCGet(tid))
 Constraint == Match /\ Progress
 ASSUME \A t \in 1..Len(Traces) : TLCSet(t, 0)
